@@ -911,3 +911,93 @@ func TestPropOddStrings(t *testing.T) {
 		recOdd.MaybeSample(oc.usable && orderedOddKey, func() any { return text[:min(len(text), 500)] })
 	})
 }
+
+// ---------------------------------------------------------------------------
+// Anchor names defined more than once: an alias refers to the latest definition before it. Step lists
+// and whole steps are defined, aliased, defined again under the same name and aliased again; the step
+// list must hold one step per entry of the INPUT sequence each alias stands for.
+
+var recRedef = ev.New("TestPropRedefinedAnchors", "documents of 2-6 groups whose step lists (and some single steps) are anchored under one of two names, aliased by later groups, anchored again under the same name with other content and aliased again: define / alias / redefine / alias in every order the draws give; oracle = the shared one (one step per input entry, recursively, kinds by the rule table, ...) plus the number and kind of steps each group must hold, known by construction; non-trivial = a name is redefined and aliased both before and after; distinct by document text")
+
+func TestPropRedefinedAnchors(t *testing.T) {
+	ev.Check(t, 1200, 30000, func(t *rapid.T) {
+		type def struct {
+			kinds []string // kind of each step of the list
+		}
+		latest := map[string]*def{}
+		redefined := map[string]bool{}
+		aliasedBefore := map[string]bool{}
+		nt := false
+		stepText := func(i int) (string, string) {
+			switch rapid.IntRange(0, 4).Draw(t, "sk") {
+			case 0:
+				return `"wait"`, doc.KWait
+			case 1:
+				return fmt.Sprintf(`{"block": "b%d"}`, i), doc.KInput
+			case 2:
+				return fmt.Sprintf(`{"mystery": %d}`, i), doc.KUnknown
+			default:
+				return fmt.Sprintf(`{"command": "c%d"}`, i), doc.KCommand
+			}
+		}
+		var b strings.Builder
+		b.WriteString("steps:\n")
+		var want [][]string
+		ng := rapid.IntRange(2, 6).Draw(t, "ngroups")
+		n := 0
+		for gi := 0; gi < ng; gi++ {
+			name := rapid.SampledFrom([]string{"t", "u"}).Draw(t, "name")
+			if d := latest[name]; d != nil && rapid.IntRange(0, 2).Draw(t, "usealias") > 0 {
+				fmt.Fprintf(&b, "  - group: g%d\n    steps: *%s\n", gi, name)
+				want = append(want, d.kinds)
+				if redefined[name] {
+					nt = nt || aliasedBefore[name]
+				}
+				aliasedBefore[name] = true
+				continue
+			}
+			d := &def{}
+			var items []string
+			for i, c := 0, rapid.IntRange(1, 4).Draw(t, "nlist"); i < c; i++ {
+				n++
+				txt, kind := stepText(n)
+				items = append(items, txt)
+				d.kinds = append(d.kinds, kind)
+			}
+			if latest[name] != nil {
+				redefined[name] = true
+			}
+			latest[name] = d
+			fmt.Fprintf(&b, "  - group: g%d\n    steps: &%s [%s]\n", gi, name, strings.Join(items, ", "))
+			want = append(want, d.kinds)
+		}
+		text := b.String()
+		oc, err := checkParse([]byte(text))
+		if err != nil {
+			t.Fatalf("%v\n%s", err, text)
+		}
+		if !oc.usable {
+			t.Fatalf("the document does not parse to a usable pipeline\n%s", text)
+		}
+		p, _ := pipeline.Parse(strings.NewReader(text))
+		if len(p.Steps) != len(want) {
+			t.Fatalf("%d groups parsed, %d written\n%s", len(p.Steps), len(want), text)
+		}
+		for gi, kinds := range want {
+			gs, ok := p.Steps[gi].(*pipeline.GroupStep)
+			if !ok {
+				t.Fatalf("step %d is %T, want a group\n%s", gi, p.Steps[gi], text)
+			}
+			if len(gs.Steps) != len(kinds) {
+				t.Fatalf("group g%d holds %d steps, the list its `steps` stands for has %d\n%s", gi, len(gs.Steps), len(kinds), text)
+			}
+			for i, k := range kinds {
+				if got := kindOf(gs.Steps[i]); got != k {
+					t.Fatalf("group g%d step %d is %s, the list its `steps` stands for has %s there\n%s", gi, i, got, k, text)
+				}
+			}
+		}
+		recRedef.Case(ev.HashStr(text), nt, fmt.Sprintf("groups=%d", ng))
+		recRedef.MaybeSample(nt, func() any { return text })
+	})
+}
